@@ -107,3 +107,20 @@ func TestEntropy(t *testing.T) {
 	}
 	fmt.Println("SCENARIOS-RUN 1")
 }
+
+// TestBinary drives the binary built from ./cmd ($VERIF_BIN) over gRPC in real time.
+func TestBinary(t *testing.T) {
+	in, out, bin := os.Getenv("VERIF_IN"), os.Getenv("VERIF_OUT"), os.Getenv("VERIF_BIN")
+	if in == "" || out == "" || bin == "" {
+		t.Skip("VERIF_IN / VERIF_OUT / VERIF_BIN not set")
+	}
+	tmp := os.Getenv("VERIF_TMP")
+	if tmp == "" {
+		tmp = t.TempDir()
+	}
+	n, err := runBinaryFile(in, out, tmp, bin)
+	if err != nil {
+		t.Fatalf("binary driver: %v (after %d scenarios)", err, n)
+	}
+	fmt.Printf("SCENARIOS-RUN %d\n", n)
+}
